@@ -5,7 +5,8 @@
 From Coq Require Import Permutation Sorted.
 From FB Require Import Base.Sort C01.Model C01.Pool C01.Resolve C01.Attr C01.Fmt C01.Formats C01.ClassFile C01.Annot C01.Mutf8
   C01.Theory1 C01.Theory2 C01.Theory3 C01.Theory4 C01.Theory5 C01.Theory6 C01.Theory7 C01.Theory8 C01.Theory9 C01.Theory10 C01.Theory11
-  C01.Theory12 C01.Theory13 C01.Theory14 C01.Theory15 C01.Theory16 C01.Examples C01.Witness C01.Examples2 C01.Examples3.
+  C01.Theory12 C01.Theory13 C01.Theory14 C01.Theory15 C01.Theory16 C01.Theory17 C01.Theory18 C01.Theory19 C01.Theory20 C01.Theory21 C01.Theory22 C01.Theory23
+  C01.Examples C01.Witness C01.Examples2 C01.Examples3 C01.Examples4.
 
 (* ---- the code array ---------------------------------------------------------------------------- *)
 
@@ -175,6 +176,55 @@ Theorem C01_insn_layout_exact : forall pi p p' b, pool_iso_strict pi p p' -> for
 Proof. exact insn_layout_exact. Qed.
 Print Assumptions C01_insn_layout_exact.
 
+(* ---- Dynamic / InvokeDynamic entries (round 5) --------------------------------------------------- *)
+(* What a CONSTANT_Dynamic entry resolves to, at every nesting level with room for one: name and
+   descriptor are those of the entry's OWN NameAndType, method handle and arguments those of the
+   bootstrap method it names — two independent halves.  (The model is a function of pool, table and
+   index: nothing depends on what was resolved before.) *)
+Theorem C01_dynamic_resolution : forall f p b i bi nt,
+  pget p i = Ok (EDynamic bi nt) ->
+  get_loadable (S (S f)) p b i =
+  (do nd <- get_nt p nt;
+   match nth_error b (N.to_nat bi) with
+   | Some (h, args) =>
+     do hv <- get_method_handle p h;
+     do avs <- map_res (get_loadable (S f) p b) args;
+     Ok (VDynamic (fst nd) (snd nd) hv avs)
+   | None => Err
+   end).
+Proof. exact dynamic_resolution. Qed.
+Print Assumptions C01_dynamic_resolution.
+
+(* two Dynamic entries that share a bootstrap method, loaded by ldc / ldc_w / ldc2_w: the same handle, the
+   same arguments, each its own name and type (seed C01-a4: a cache keyed by the bootstrap index) *)
+Theorem C01_dynamic_share_bootstrap : forall p b i j bi nt nt' v v',
+  pget p i = Ok (EDynamic bi nt) -> pget p j = Ok (EDynamic bi nt') ->
+  resolve_kind p b 0 i = Ok v -> resolve_kind p b 0 j = Ok v' ->
+  exists n d n' d' hv avs,
+    v = VDynamic n d hv avs /\ v' = VDynamic n' d' hv avs /\
+    get_nt p nt = Ok (n, d) /\ get_nt p nt' = Ok (n', d').
+Proof. exact ldc_dynamic_share_bootstrap. Qed.
+Print Assumptions C01_dynamic_share_bootstrap.
+
+(* … nested as bootstrap arguments at any level, and for two invokedynamic call sites *)
+Theorem C01_dynamic_share_bootstrap_nested : forall f p b i j bi nt nt' v v',
+  pget p i = Ok (EDynamic bi nt) -> pget p j = Ok (EDynamic bi nt') ->
+  get_loadable (S (S f)) p b i = Ok v -> get_loadable (S (S f)) p b j = Ok v' ->
+  exists n d n' d' hv avs,
+    v = VDynamic n d hv avs /\ v' = VDynamic n' d' hv avs /\
+    get_nt p nt = Ok (n, d) /\ get_nt p nt' = Ok (n', d').
+Proof. exact dynamic_share_bootstrap. Qed.
+Print Assumptions C01_dynamic_share_bootstrap_nested.
+
+Theorem C01_indy_share_bootstrap : forall p b i j bi nt nt' v v',
+  pget p i = Ok (EInvokeDynamic bi nt) -> pget p j = Ok (EInvokeDynamic bi nt') ->
+  get_invoke_dynamic p b i = Ok v -> get_invoke_dynamic p b j = Ok v' ->
+  exists n d n' d' hv avs,
+    v = VIndy n d hv avs /\ v' = VIndy n' d' hv avs /\
+    get_nt p nt = Ok (n, d) /\ get_nt p nt' = Ok (n', d').
+Proof. exact indy_share_bootstrap. Qed.
+Print Assumptions C01_indy_share_bootstrap.
+
 (* ---- tag tables against the JVMS ------------------------------------------------------------------ *)
 (* The tables generated from the reader's match arms (Formats.v, regenerated on every run), ordered by
    tag, ARE the hand-transcribed JVMS tables of Theory12.v: verification_type_info (ITEM_Double = 3,
@@ -234,6 +284,28 @@ Theorem C01_attr_order_independent : forall known (l l' : list attr),
   Permutation (unknown_of known l) (unknown_of known l').
 Proof. exact attr_order_independent. Qed.
 Print Assumptions C01_attr_order_independent.
+
+(* … the same for the dispatch the whole-file reader really uses (round 5): [fold_attrs (apply_attr …)] with the
+   tree visitor's bookkeeping, at every level (ctx 0 class, 1 field, 2 method, 3 Code, 4 record component).
+   [akey]: the attribute's name, LocalVariableTypeTable counting as LocalVariableTable (their entries share one
+   list, kept in file order) and StackMap as StackMapTable (they share one slot).  Over any permutation of a
+   list with pairwise different keys the fold fails for both orders or ends in equivalent states ([requiv]:
+   the same value under every attribute name, the same Code attribute, the same Record flag, the same
+   unknown attributes up to their order). *)
+Theorem C01_fold_attrs_perm : forall impl p b ctx l l', Permutation l l' -> NoDup (map akey l) -> forall st,
+  requiv (fold_attrs (apply_attr impl p b ctx) st l) (fold_attrs (apply_attr impl p b ctx) st l').
+Proof. exact fold_attrs_perm. Qed.
+Print Assumptions C01_fold_attrs_perm.
+
+(* what it rests on: every attribute acts on the state as one of six kinds of operation ([op_of]: fail, nothing,
+   read some slots and write one, append an unknown attribute, set the Code, set the Record), touching only
+   slots that have its key; two operations on disjoint slots that are not both Code / both Record commute *)
+Theorem C01_attr_operations : forall impl p b ctx,
+  (forall st n v, apply_attr impl p b ctx st n v = run (op_of impl p b ctx n v) st) /\
+  (forall n v a, In a (touches (op_of impl p b ctx n v)) -> key a = key n) /\
+  (forall o1 o2 st, disj o1 o2 -> ~ clash o1 o2 -> requiv (do s <- run o1 st; run o2 s) (do s <- run o2 st; run o1 s)).
+Proof. exact (fun impl p b ctx => conj (fun st n v => apply_attr_run impl p b ctx st n v) (conj (fun n v a => touches_key impl p b ctx n v a) run_comm)). Qed.
+Print Assumptions C01_attr_operations.
 
 (* nothing_dropped (restricted): every attribute name with an arm of its own is parsed and handed to
    the visitor or sets its flag — except the two parameter-annotation attributes of methods (F13p) *)
@@ -300,6 +372,23 @@ Theorem C01_format_roundtrip : forall impl dec rs f r rest, fits impl rs f r = t
   rd_fmt impl dec rs f (enc_raw r ++ rest) = (do v <- desc_fmt impl dec rs f r; Ok (v, rest)).
 Proof. exact fmt_roundtrip. Qed.
 Print Assumptions C01_format_roundtrip.
+
+(* NO JUNK outside the code array (round 5).  [rd_strict] is the format reader with two more checks: the payload
+   of an attribute must take exactly attribute_length bytes, and a skipped payload may not pass the end of
+   the input.  It accepts EXACTLY the encodings of the structures that fit the format (nothing that is not a
+   class-file structure, and every one of them), and where it accepts, duke's reader [rd_fmt] gives the same
+   answer.  What duke accepts beyond the encodings is therefore only: an attribute_length that disagrees with
+   the attribute's content (duke does not compare them), a skipped attribute running past the end. *)
+Theorem C01_no_junk_formats : forall impl dec rs f s v rest, is_bytes s ->
+  (rd_strict impl dec rs f s = Ok (v, rest) <->
+   exists r, fits impl rs f r = true /\ s = enc_raw r ++ rest /\ desc_fmt impl dec rs f r = Ok v).
+Proof. exact strict_iff_encoding. Qed.
+Print Assumptions C01_no_junk_formats.
+
+Theorem C01_strict_is_restriction : forall impl dec rs f s x,
+  rd_strict impl dec rs f s = Ok x -> rd_fmt impl dec rs f s = Ok x.
+Proof. exact rd_strict_rd_fmt. Qed.
+Print Assumptions C01_strict_is_restriction.
 
 (* constant_pool_count and the entries, two-slot entries included: PoolRead::read on the bytes of a
    pool yields the pool (Utf8 bytes through the decoder) *)
@@ -397,6 +486,64 @@ Theorem C01_layout_index : forall ch body k, (k <= length body)%nat ->
 Proof. exact ix_of_layout_designates. Qed.
 Print Assumptions C01_layout_index.
 
+(* ---- pool layout independence of whole class files (round 5) -------------------------------------- *)
+(* [ren_raw pi rs f r]: the structure r, read along its format f as the reader reads it, with every
+   constant-pool index renamed (FIdx, FOptIdx keeping 0, every attribute_name_index, through vectors,
+   tagged unions and nested attribute lists); no byte moves, every attribute_length stays. *)
+Theorem C01_ren_raw_length : forall pi rs f r, length (enc_raw (ren_raw pi rs f r)) = length (enc_raw r).
+Proof. exact ren_raw_length. Qed.
+Print Assumptions C01_ren_raw_length.
+
+(* For every format that keeps no index beside its resolution ([closed]: all but the BootstrapMethods
+   table) the renamed structure over the re-laid-out pool has the description of the original structure
+   over the original pool — refusals included.  The header, the fields, the methods (with Code, its
+   exception table and attributes) and every class attribute but BootstrapMethods are such formats. *)
+Theorem C01_ren_raw_desc : forall impl dec pi p p', pool_iso_strict pi p p' -> nonzero pi ->
+  forall f, closed f -> forall r,
+  desc_fmt impl dec (acc p') f (ren_raw pi (acc p) f r) = desc_fmt impl dec (acc p) f r.
+Proof. exact ren_raw_desc. Qed.
+Print Assumptions C01_ren_raw_desc.
+
+Theorem C01_formats_closed :
+  closed head_fmt /\ closed fields_fmt /\ closed methods_fmt /\ closed code_fmt /\
+  forall name len, str_eqb a_BootstrapMethods name = false -> closed (class_sel name len).
+Proof. exact (conj closed_head (conj closed_fields (conj closed_methods (conj closed_code closed_class_sel)))). Qed.
+Print Assumptions C01_formats_closed.
+
+(* the code array: two arrays related along pi ([code_rel]: beside the same tables the reader takes both
+   or refuses both, finds the same boundaries, labels and frame offsets, and decodes the same
+   instructions with renamed pool operands) give the same Code attribute over the two pools … *)
+Theorem C01_build_code_rel : forall impl pi p p' b code code' ms ml exc attrs,
+  pool_iso_strict pi p p' -> code_rel pi code code' ->
+  build_code impl p' (rename_bsm pi b) (VSeq [VN ms; VN ml; VB code'; VList exc; VList attrs])
+  = build_code impl p b (VSeq [VN ms; VN ml; VB code; VList exc; VList attrs]).
+Proof. exact build_code_rel. Qed.
+Print Assumptions C01_build_code_rel.
+
+(* … and the encodings of a body and of the body with renamed operands under one choice function are
+   related (by C01_no_junk_code every accepted array whose targets are instruction starts is such an encoding) *)
+Theorem C01_code_rel_encode : forall pi ch body bs bs',
+  encode ch body = Some bs -> encode ch (map (rename_insn pi) body) = Some bs' -> targets_ok body ->
+  code_rel pi bs bs'.
+Proof. exact code_rel_encode. Qed.
+Print Assumptions C01_code_rel_encode.
+
+(* THE WHOLE FILE.  [class_iso dec pi c c' p p']: same version; the pools of c and c' decode to p and p',
+   p' holding at pi i exactly the renamed entry of p's i; pi i <> 0 for i <> 0; header, fields and class
+   attributes of c' are c's with every index renamed (the BootstrapMethods table: method refs and
+   arguments); the methods are c's with every index renamed and every code array replaced by a related
+   one.  Then c' has the description of c — hence duke reads both files to the same tree. *)
+Theorem C01_class_layout_independent : forall impl dec pi c c' p p', class_iso dec pi c c' p p' ->
+  describe impl dec c' = describe impl dec c.
+Proof. exact class_layout_independent. Qed.
+Print Assumptions C01_class_layout_independent.
+
+Theorem C01_read_class_layout_independent : forall impl dec pi c c' p p', class_iso dec pi c c' p p' ->
+  class_fits impl dec c = true -> class_fits impl dec c' = true ->
+  read_class impl dec (encode_class c') = read_class impl dec (encode_class c).
+Proof. exact read_class_layout_independent. Qed.
+Print Assumptions C01_read_class_layout_independent.
+
 (* ---- annotations -------------------------------------------------------------------------------- *)
 (* element_value trees over all tags (B C D F I J S Z s e c @ [): every element value whose indices
    and counts fit and whose annotations / arrays nest at most 64 deep is read from its encoding to
@@ -434,3 +581,7 @@ Print Assumptions C01_examples3.
 Theorem C01_examples4 : nonvacuous4.
 Proof. exact nonvacuous4_holds. Qed.
 Print Assumptions C01_examples4.
+
+Theorem C01_examples5 : nonvacuous17 /\ nonvacuous5 /\ nonvacuous22.
+Proof. exact (conj nonvacuous17_holds (conj nonvacuous5_holds nonvacuous22_holds)). Qed.
+Print Assumptions C01_examples5.
